@@ -12,7 +12,9 @@ MORE2 = {
              "exactly minimal prefixes. Canonical clause: lemma_c15_canonical_iff_reserializes shows that a decodable input is (whole input one tree of "
              "canonical tokens) exactly when it equals ser(decoded tree), i.e. re-serializing reproduces it byte for byte. The untrusted probe "
              "serialized_length_from_bytes returns the consumed length for every decodable input of at most 20,000,000 bytes (it allocates "
-             "scratch pairs: observation O2). NOT under contract: the object-cache length.",
+             "scratch pairs: observation O2). serialized_length_atom, which the object-cache length adds up, is proved equal to |ser_atom|; the "
+             "combination through the cache (a HashMap) is NOT under contract: for it the check runs a BOUNDED stand-in on every run (2000 random "
+             "DAGs, object-cache length against node_to_bytes; labelled bounded, never counted as proved).",
         note=TB + "io::Write modelled as a budgeted all-or-nothing sink, Cursor<&[u8]>/Read as a byte source with a position (std documentation); "
              "decode_size_with_offset is ASSUMED in Verus with exactly the statement Kani proves on the compiled function. Observation O1: the two "
              "token counters in tools.rs are i32 and overflow after 2^31-2 consecutive cons markers, so those contracts require inputs < 2^31-1 bytes.",
@@ -32,7 +34,7 @@ MORE2 = {
         text="Partial proof (Verus) for two of the implementations: tree_hash_costed / the sha256tree operator return exactly tree_hash(tree) and "
              "tree_hash_from_stream returns tree_hash of the decoded tree, where tree_hash is the recursive definition sha256(1||atom), "
              "sha256(2||left||right) over an uninterpreted SHA-256; the precomputed table for small integers is checked completely on every run "
-             "(37 hex literals against hashlib). The object-cache, interned-tree and Python implementations are NOT under contract; for parse_triples' hashes the check runs a BOUNDED stand-in on every run (differential test against the recursive definition on the same finite input set as C16's; labelled bounded, never counted as proved).",
+             "(37 hex literals against hashlib). The Python implementations are NOT under contract. For the hashes of parse_triples, of the object cache and of the interned tree the check runs BOUNDED stand-ins on every run (differential tests against the recursive definition: the finite input set of C16's stand-in, and 2000 random DAGs; labelled bounded, never counted as proved).",
         note=TB + "tree_hash_atom / tree_hash_pair / hash_atom / hash_pair (calls into chia_sha2) are ASSUMED to be SHA-256 of the documented input.",
         tech="contract-based deductive verification (Verus): machine invariant relating pending operations to the recursive hash definition",
         ref="4/C22, 11.1"),
